@@ -426,3 +426,32 @@ Example update_example :
   offered_r g_ex (tb_update tb_ex 3%N TAny (TUnion [t_K])) t_str = [] /\
   offered_r g_ex tb_ex t_str = [3%N].
 Proof. vm_compute. repeat split; reflexivity. Qed.
+
+(* ------------------------------------------------------------------------------------------ *)
+(* E. queries are observations: a history of queries and evictions changes neither the graph nor any
+   later answer *)
+Definition is_observation (o : op) : bool := match o with AddEdge _ _ => false | _ => true end.
+
+Lemma step_observation_graph i anyd s o : is_observation o = true -> gr (fst (step i anyd s o)) = gr s.
+Proof.
+  destruct o as [q|p c|q]; simpl; intro H; try discriminate; [|reflexivity].
+  destruct (cache_get (ca s) q); reflexivity.
+Qed.
+
+Lemma run_observation_graph i anyd ops : forall s,
+  forallb is_observation ops = true -> gr (fst (run i anyd s ops)) = gr s.
+Proof.
+  induction ops as [|o ops IH]; intros s H; [reflexivity|].
+  simpl in H. apply andb_true_iff in H. destruct H as [H1 H2]. rewrite run_cons.
+  pose proof (step_observation_graph i anyd s o H1) as G.
+  destruct (step i anyd s o) as [s1 a] eqn:E1. simpl in G.
+  specialize (IH s1 H2). destruct (run i anyd s1 ops) as [s2 l] eqn:E2. simpl in *. congruence.
+Qed.
+
+Lemma queries_leave_answers_unchanged anyd s ops q :
+  fresh_cache (gr s) anyd (ca s) -> forallb is_observation ops = true ->
+  snd (step true anyd (fst (run true anyd s ops)) (Query q)) = Some (compute (gr s) anyd q).
+Proof.
+  intros F H. rewrite step_query_answer by (apply run_fresh; exact F).
+  rewrite (run_observation_graph true anyd ops s H). reflexivity.
+Qed.
